@@ -236,11 +236,16 @@ type mapCfg struct {
 	// NoRemember: a light forest that is never told to remember added leaves; every deletion is first
 	// verified with remember (which ingests the block proof), then applied.
 	NoRemember bool
+	// RememberEven: only the leaves with an even insertion slot are remembered (mixed Remember flags).
+	RememberEven bool
 }
 
 func (c mapCfg) String() string {
 	if c.NoRemember {
 		return fmt.Sprintf("map(full=%v,rows=%d,remembers-nothing)", c.Full, c.TotalRows)
+	}
+	if c.RememberEven {
+		return fmt.Sprintf("map(full=%v,rows=%d,remembers-even-slots)", c.Full, c.TotalRows)
 	}
 	return fmt.Sprintf("map(full=%v,rows=%d)", c.Full, c.TotalRows)
 }
